@@ -31,7 +31,6 @@ THEOREMS = [
     "C04_history_universe",
     "C04_swap",
     "C04_link_wf",
-    "C04_duplicate_refuted",
 ]
 
 FEATURES = {"transforms", "periodic", "boundary", "universes", "complements", "thermal", "data_placement", "shortcuts", "message"}
@@ -95,6 +94,26 @@ tr3 1 2 3
 mode n
 nps 100
 """
+
+
+def _move_mt(text, rng):
+    """MT cards may stand anywhere in the data block (plain layout: one card per line unless continued by 5 blanks)"""
+    lines = text.split("\n")
+    blanks = [i for i, l in enumerate(lines) if l.strip() == ""]
+    if len(blanks) < 3:
+        return text
+    lo, hi = blanks[1] + 1, blanks[2]
+    data = lines[lo:hi]
+    mts = [i for i, l in enumerate(data) if l[:2].lower() == "mt" and (i + 1 == len(data) or data[i + 1][:1].strip())]
+    for i in mts:
+        if rng.random() < 0.6:
+            continue
+        card = data[i]
+        rest = data[:i] + data[i + 1:]
+        starts = [j for j, l in enumerate(rest) if l[:1].strip()] + [len(rest)]
+        j = rng.choice(starts)
+        data = rest[:j] + [card] + rest[j:]
+    return "\n".join(lines[:lo] + data + lines[hi:])
 
 
 def _corpus():
@@ -214,10 +233,15 @@ def run(chk):
         feats = set(FEATURES)
         if i % 3 == 0:
             feats -= {"data_placement"}
+        if i % 4 == 1:
+            feats |= {"lattice"}
         gp = genprob.generate(rng, features=feats)
         limit = 80 if i % 5 == 0 else 128
         style = "random" if i % 2 else "plain"
-        texts.append((f"gen:{i}", genprob.render(gp, rng, limit, style), limit))
+        text = genprob.render(gp, rng, limit, style)
+        if style == "plain" and i % 3 != 1:
+            text = _move_mt(text, rng)
+        texts.append((f"gen:{i}", text, limit))
     dens0 = spec.denote_many([t for _, t, _ in texts if True], 128)
     # the column limit matters for the reading: re-read the 80-column ones with their limit
     idx80 = [i for i, (_, _, l) in enumerate(texts) if l == 80]
